@@ -91,6 +91,7 @@ func Parse() *Ctx {
 	flag.StringVar(&c.Out, "out", "", "result file")
 	flag.StringVar(&c.Side, "side", "", "side file (current case index)")
 	flag.IntVar(&budget, "budget", 0, "soft wall-clock budget in seconds (0 = none)")
+	flag.IntVar(&caseTimeout, "casetimeout", 0, "abort (exit 4) when one case runs longer than this many seconds (0 = no watchdog)")
 	flag.Parse()
 	c.Args = flag.Args()
 	c.Res.Property = c.Prop
@@ -110,7 +111,30 @@ func Parse() *Ctx {
 		}
 		c.sideF = f
 	}
+	if caseTimeout > 0 {
+		atomic.StoreInt64(&lastMark, time.Now().UnixNano())
+		go watchdog()
+	}
 	return c
+}
+
+// The case watchdog: a case that does not return (the code under test spins, or waits for something that
+// never comes) would stall the shard until the driver's hard timeout. With -casetimeout the worker ends
+// itself with exit code 4 instead; the driver then treats the marked case like a crash (it is replayed
+// alone three times, and only a case that never returns in any of them is reported).
+var (
+	caseTimeout int
+	lastMark    int64
+)
+
+func watchdog() {
+	for {
+		time.Sleep(time.Second)
+		if time.Duration(time.Now().UnixNano()-atomic.LoadInt64(&lastMark)) > time.Duration(caseTimeout)*time.Second {
+			fmt.Fprintf(os.Stderr, "\nvk: case watchdog: the current case has not returned after %d s; giving up on this process (exit 4)\n", caseTimeout)
+			os.Exit(4)
+		}
+	}
 }
 
 // Thorough reports whether the thorough tier is requested.
@@ -135,6 +159,7 @@ func (c *Ctx) Mine(i int64) bool {
 
 // Mark records the case index about to be executed.
 func (c *Ctx) Mark(i int64) {
+	atomic.StoreInt64(&lastMark, time.Now().UnixNano())
 	if c.sideF != nil {
 		var b [8]byte
 		binary.LittleEndian.PutUint64(b[:], uint64(i))
